@@ -302,6 +302,8 @@ def run_view(exe, case, scratch, timeout=30.0):
       ["pl", k]          R's view of P's list file becomes its first k bytes (None = complete)
       ["pt", k]          R's view of P's state file becomes its first k bytes (None = complete; not generated: state files are
                          written to a temporary name and renamed)
+      ["ps", bin, "split"]  a step of P whose state-file rewrite (if it does one) reaches R in two stages: R sees the new
+                         state file at once but keeps seeing its old view of the hills file until ["pb"] (or P's next event)
       ["pg", k]          P's record in R's registry file becomes its first k bytes (None = complete); with case["late_register"]
                          the record is absent until the first "pg" event
     R's view of P's state file follows P atomically (rename), and its view of the hills file restarts empty
@@ -329,17 +331,27 @@ def run_view(exe, case, scratch, timeout=30.0):
             "list_ok": True, "reg_ok": not case.get("late_register", False), "reg_own": ""}
     w1line = "w1 %s\n" % vlist
 
-    def sync_view():
-        """follow P: a new state file (or hills file generation) is seen at once; the hills view restarts"""
+    def finish_rewrite():
+        if view.get("mid"):
+            view["mid"] = False
+            view["hills_bytes"] = 0
+            atomic_write(vhills, b"")
+
+    def sync_view(split=False):
+        """follow P: a new state file (or hills file generation) is seen at once; the hills view restarts
+        (with split: only when finish_rewrite() is called)"""
         sp, hp = p_files()
         sb = read_bytes(sp)
         sig = (pgen, state_step(sp), len(sb) if sb is not None else None)
         if sb is not None and sig != view["p_state_sig"]:
             view["p_state_sig"] = sig
-            view["hills_bytes"] = 0
             view["state_trunc"] = None
             atomic_write(vstate, sb)
-            atomic_write(vhills, b"")
+            if split and view["registered"]:
+                view["mid"] = True
+            else:
+                view["hills_bytes"] = 0
+                atomic_write(vhills, b"")
             if not view["registered"]:
                 atomic_write(vlist, full_list)
                 view["reg_own"] = open(regr).read() if os.path.exists(regr) else ""
@@ -356,10 +368,14 @@ def run_view(exe, case, scratch, timeout=30.0):
         rgen = 0
         for k, ev in enumerate(case["events"]):
             rec = {"ev": ev}
+            if ev[0] in ("ps", "pr", "ph", "pb"):
+                finish_rewrite()
             if ev[0] == "ps":
                 r = P.do(["pos 1 0 0 %s" % float(ev[1] + 0.5).hex(), "step", "errtext", "dumpmeta m"], timeout)
                 rec["p"] = parse_meta(r)
-                sync_view()
+                sync_view(split=(len(ev) > 2 and ev[2] == "split"))
+            elif ev[0] == "pb":
+                pass
             elif ev[0] == "pr":
                 if ev[1]:
                     pgen += 1
@@ -393,6 +409,7 @@ def run_view(exe, case, scratch, timeout=30.0):
             hb = read_bytes(p_files()[1])
             rec["reclen"] = record_length(hb) if hb and b"}\n" in hb else None
             rec["view_hills_bytes"] = view["hills_bytes"]
+            rec["mid"] = bool(view.get("mid"))
             rec["files_ok"] = view["list_ok"] and view["reg_ok"] and view["state_trunc"] is None
             rec["p_hills_bytes"] = len(hb) if hb is not None else None
             rec["p_state_step"] = state_step(p_files()[0])
